@@ -173,6 +173,7 @@ def run(rep, facts, tier):
     rule_04_9(rep, fx, rw, og, sends)
     rule_04_10(rep, fx)
     rule_04_11(rep, fx)
+    rule_04_12(rep, fx)
     # (b) a recorded GAP is always sent: on `!no_longer_relevant.is_empty()` or `all_irrelevant_before.is_some()` the message goes out
     alle = list(switch_edges(rw, fx, og))
     must_send = [(s_, t_) for s_, t_, cond, lab in alle if (cond[0] == 'call' and cond[1].endswith('::is_empty') and lab is False and term_has(cond, lambda x: x[0] == 'call' and x[1].endswith('BTreeSet::new')))
@@ -517,3 +518,90 @@ def rule_04_11(rep, fx):
         v = oga.of_operand(insa[0][1]['args'][2], insa[0][0], 'term')
         oka = term_has(v, lambda x: x[0] == 'call' and x[1].endswith('from_elem') and term_has(x[2][0], lambda y: y == ('param', 3)) and x[2][1] in (('const', 'bool', True), ('const', 'int', 1)))
     rep.check(oka, 'R04.11', 'mark_all_frags_requested/records', 'frags_requested[seq_num] := frag_count bits, all set', 'mark_all_frags_requested does not record frag_count requested fragments for the sequence number', a.where())
+
+
+def rule_04_12(rep, fx):
+    """Retention: what the writer keeps is the last `depth` acknowledged samples plus everything a matched reliable reader has not acknowledged yet."""
+    rep.rule('R04.12', 'retention formula: handle_cache_cleaning calls remove_all_acked_changes_but_keep_depth(k) on every path with k = 1 without a History policy, the resource '
+                       'limit for KeepAll and min(depth, resource limit) for KeepLast; there first_keeper = max(MIN over reliable reader proxies of acked_up_to_before() - depth, '
+                       'first_change_sequence_number()) for a stateful writer and exactly that value goes to HistoryBuffer::remove_changes_before, which cuts both of its maps at '
+                       'the given number (split_off keeps what is >= it) and moves first_seq there')
+    h = fx.find(W + 'handle_cache_cleaning')
+    rep.analysed(h)
+    og = Origins(h, summaries=False)
+    P = Pos(h)
+    calls = [(bb, t) for bb, t in h.calls() if callee_res(t).endswith('Writer::remove_all_acked_changes_but_keep_depth')]
+    table = {}
+    edges = list(switch_edges(h, fx, og))
+    for s_, t_, cond, lab in edges:
+        if not isinstance(lab, str) or cond[0] != 'discr':
+            continue
+        for bb, t in calls:
+            if P.norm((t_, 0)) == P.norm((bb, 0)) or (P.can_reach((t_, 0), (bb, 'term')) and not any(P.can_reach((t_, 0), (b2, 'term')) for b2, _t in calls if b2 != bb)):
+                table.setdefault(lab, set()).add(bb)
+    vals = {bb: og.of_operand(t['args'][1], bb, 'term') for bb, t in calls}
+
+    def is_limit(v):
+        return v[0] == 'const' and v[1] == 'int'
+    ok = len(calls) == 3 and all(P.every_path_passes(None, (r, 'term'), via_pos=[(bb, 'term') for bb, _ in calls], from_entry=True) for r in h.return_blocks())
+    why = []
+    if ok:
+        try:
+            none_v = vals[next(iter(table['None']))]
+            all_v = vals[next(iter(table['KeepAll']))]
+            last_v = vals[next(iter(table['KeepLast']))]
+            ok = none_v == ('const', 'int', 1) and is_limit(all_v) and last_v[0] == 'call' and last_v[1].endswith('::min') and \
+                any(term_has(x, lambda y: y[0] == 'field' and y[1] == 'depth') for x in last_v[2]) and any(x == all_v for x in last_v[2])
+            why = [term_str(none_v), term_str(all_v), term_str(last_v)[:80]]
+        except (KeyError, StopIteration):
+            ok = False
+    rep.check(ok, 'R04.12', 'handle_cache_cleaning/keep-depth', 'None => 1, KeepAll => limit, KeepLast{d} => min(d, limit), on every path',
+              'handle_cache_cleaning does not clean with keep depth 1 / resource limit / min(depth, resource limit) for None / KeepAll / KeepLast on every path (%s): the writer keeps '
+              'more, or less, than its History policy says' % why, h.where())
+    r = fx.find(W + 'remove_all_acked_changes_but_keep_depth')
+    rep.analysed(r)
+    ogr = Origins(r, summaries=False)
+    Pr = Pos(r)
+    rc = [(bb, t) for bb, t in r.calls() if callee_res(t).endswith('HistoryBuffer::remove_changes_before')]
+    okf = len(rc) == 1 and all(Pr.every_path_passes(None, (x, 'term'), via_pos=[(rc[0][0], 'term')], from_entry=True) for x in r.return_blocks())
+    shown = ''
+    if okf:
+        v = ogr.of_operand(rc[0][1]['args'][1], rc[0][0], 'term')
+        shown = term_str(v)[:160]
+        alts = list(v[1]) if v[0] == 'phi' else [v]
+        first = lambda x: x[0] == 'call' and x[1].endswith('first_change_sequence_number')
+        stateful = [a for a in alts if not first(a)]
+        okf = len(alts) == 2 and len(stateful) == 1 and any(first(a) for a in alts)
+        if okf:
+            m = stateful[0]
+            okf = m[0] == 'call' and m[1].rsplit('::', 1)[-1] == 'max' and len(m[2]) == 2 and any(first(x) for x in m[2])
+            if okf:
+                sub = [x for x in m[2] if not first(x)][0]
+                okf = sub[0] == 'call' and sub[1].rsplit('::', 1)[-1] == 'sub' and term_has(sub[2][1], lambda y: y == ('param', 2)) and \
+                    term_has(sub[2][0], lambda y: y[0] == 'call' and y[1].endswith('Iterator::min')) and \
+                    term_has(sub[2][0], lambda y: y[0] == 'call' and y[1].endswith('Iterator::map') and term_has(y, lambda z: z[0] == 'const' and 'acked_up_to_before' in str(z))) and \
+                    not term_has(sub[2][0], lambda y: y[0] == 'call' and y[1].endswith(('Iterator::max', 'Iterator::last', 'Iterator::next')))
+    rep.check(okf, 'R04.12', 'remove_all_acked_changes_but_keep_depth/first-keeper', 'max(min(acked_up_to_before of reliable readers) - depth, first_seq) -> remove_changes_before, on every path',
+              'the first sequence number kept is not max(MIN over reliable readers of acked_up_to_before() - depth, first available) handed to remove_changes_before on every path (%s): '
+              'samples a reliable reader has not acknowledged can be dropped, or acknowledged ones are kept beyond the depth' % shown, r.where())
+    hb = fx.find('rtps::writer::HistoryBuffer::remove_changes_before')
+    rep.analysed(hb)
+    ogh = Origins(hb, summaries=False)
+    splits = [(bb, t) for bb, t in hb.calls() if callee_res(t).endswith('BTreeMap::<K, V, A>::split_off')]
+    okh = len(splits) == 2
+    stores = {}
+    for bb, si, st in hb.statements():
+        if st['s'] == 'assign':
+            names = [e.get('n') for e in (st['lhs'].get('p') or []) if isinstance(e, dict)]
+            if names and names[-1] in ('history_buffer', 'sequence_number_to_instant', 'first_seq'):
+                stores[names[-1]] = ogh._rvalue(st['rv'], bb, si, 0)
+    if okh:
+        sn = stores.get('sequence_number_to_instant')
+        hbv = stores.get('history_buffer')
+        fs = stores.get('first_seq')
+        okh = sn is not None and hbv is not None and fs is not None and \
+            sn[0] == 'call' and sn[1].endswith('split_off') and has_field(sn[2][0], 'sequence_number_to_instant') and term_has(sn[2][1], lambda y: y == ('param', 2)) and \
+            hbv[0] == 'call' and hbv[1].endswith('split_off') and has_field(hbv[2][0], 'history_buffer') and \
+            term_has(hbv[2][1], lambda y: y[0] == 'call' and y[1].endswith('::get') and term_has(y, lambda z: z == ('param', 2))) and _strip4(fs) == ('param', 2)
+    rep.check(okh, 'R04.12', 'HistoryBuffer::remove_changes_before/cuts-both-maps', 'history_buffer := split_off(instant of n), sequence_number_to_instant := split_off(n), first_seq := n',
+              'HistoryBuffer::remove_changes_before does not cut both maps at the given sequence number and move first_seq there', hb.where())
